@@ -4,7 +4,7 @@ CONSTANTS
   EDepth = 0
   SDepth = 0
   Shapes = {""}
-  Mod = 1
+  Mod = 2
   NCalls = 36
   NProg = 1
   Sample = FALSE
